@@ -346,6 +346,24 @@ pub fn timer_precision(frequency: u64) -> u128 {
     .picos
 }
 
+/// The simulator's virtual clock as an `Instant` (hook H9): a fixed base
+/// `Instant` plus the virtual counter read as nanoseconds, so that differences
+/// of two such instants are exactly the differences of the virtual readings.
+fn sim_instant(raw: Option<u64>) -> Option<std::time::Instant> {
+    static BASE: std::sync::OnceLock<std::time::Instant> =
+        std::sync::OnceLock::new();
+    let raw = raw?;
+    Some(*BASE.get_or_init(std::time::Instant::now) + Duration::from_nanos(raw))
+}
+
+pub(crate) fn sim_instant_start() -> Option<std::time::Instant> {
+    sim_instant(::dsim::clock::read_start())
+}
+
+pub(crate) fn sim_instant_end() -> Option<std::time::Instant> {
+    sim_instant(::dsim::clock::read_end())
+}
+
 /// `TimedOverhead::total_overhead` for the given per-operation overheads
 /// (`[sample_loop, tally_alloc, tally_dealloc, tally_realloc]`, picoseconds).
 pub(crate) fn sim_overheads() -> Option<&'static TimedOverhead> {
